@@ -9,6 +9,9 @@ use tokio::io::{AsyncRead, AsyncReadExt, AsyncSeek, AsyncSeekExt, ReadBuf};
 use crate::archive_reader::ArchiveReader;
 use crate::ChunkOffset;
 
+// Upper limit of the buffer size allocated up front when reading.
+const MAX_PREALLOCATION: usize = 1024 * 1024;
+
 /// Wrapper which implements ArchiveReader for any type which implements
 /// tokio AsyncRead and AsyncSeek.
 pub struct IoReader<T>(T);
@@ -34,12 +37,15 @@ where
 
     async fn read_at(&mut self, offset: u64, size: usize) -> Result<Bytes, io::Error> {
         self.0.seek(io::SeekFrom::Start(offset)).await?;
-        let mut buf = BytesMut::with_capacity(size);
+        // The size may come from an untrusted archive header, do not allocate
+        // all of it before any data has been read.
+        let mut buf = BytesMut::with_capacity(std::cmp::min(size, MAX_PREALLOCATION));
         while buf.len() < size {
             if self.0.read_buf(&mut buf).await? == 0 {
                 return Err(io::ErrorKind::UnexpectedEof.into());
             }
         }
+        buf.truncate(size);
         Ok(buf.freeze())
     }
 
